@@ -95,7 +95,7 @@ TEXTS["C10"] = {
 TEXTS["C18"] = {
     "text": "Proved on the model of generateBlock for every pool state: a batch never exceeds the configured size whenever the ready counter is positive (C18_batch_size_bound, by a loop invariant over the "
             "priority-index iteration incl. the skipped-transaction drain loop); the pointers of one batch are pairwise distinct, none was already batched and uncommitted, and each carries the account's committed nonce or the "
-            "successor of a batched nonce — for every pool state, also with two priority entries for one pointer (C18_generate_gap_free_no_repeat, invariant BInv in Proofs/PoolBatch.lean; C18_batch_is_pointer_image, C18_batched_grows_by_batch); a generated batch carries the previous sequence number plus one, a call that generates nothing leaves it (C18_seqno_steps_by_one). "
+            "successor of a batched nonce — for every pool state, also with two priority entries for one pointer (C18_generate_gap_free_no_repeat, invariant BInv in Proofs/PoolBatch.lean; C18_batch_is_pointer_image, C18_batched_grows_by_batch); a generated batch carries the previous sequence number plus one, a call that generates nothing leaves it (C18_seqno_steps_by_one). Over whole histories (admissions, batch generations, commit notifications naming anything in any order, evictions, from any pool state): a pointer is handed to consensus a second time only if in between a commit notification named a hash the pool held for exactly that pointer (C18_history_rebatch_only_after_commit, C18_history_no_double_batch; Proofs/PoolOnce.lean characterises who changes the batched set). "
             "Across commits, evictions and restarts gap-freeness, once-only, given-only and consecutive heights are decided by the model correspondence on the real mempoolImpl "
             "(all observable outputs and the sizes of every internal index after every step) plus a model-free checker of the batch stream. Known finding: after commits of blocks the node never held the cached "
             "commit nonce is stale and an old transaction is batched below the committed nonce.",
